@@ -65,22 +65,16 @@ def branchModels : List Name :=
    nm! "DemogSelModels.bottlegrowth_2d_sel", nm! "DemogSelModels.bottlegrowth_2d_sel_single_gamma",
    nm! "DemogSelModels.bottlegrowth_split_sel", nm! "DemogSelModels.bottlegrowth_split_sel_single_gamma",
    nm! "DemogSelModels.bottlegrowth_split_mig_sel", nm! "DemogSelModels.bottlegrowth_split_mig_sel_single_gamma"]
-/-- one pass over the symbolic run of every model: argument wiring (round 2), branch boundaries and which models branch (round 5) -/
-theorem table_wiring_boundary :
-    table.all (fun m => match symbolicRun table sigs m.name (m.paramNames.map .param) with
-                        | some t => wiringOK (integrators sigs) t && boundaryTr (integrators sigs) t
-                                    && (branchCount t == 1 || branchModels.contains m.name)
-                        | none => false) = true := by decide +kernel
+/-- argument wiring (round 2) -/
 theorem table_wiring :
     table.all (fun m => match symbolicRun table sigs m.name (m.paramNames.map .param) with
                         | some t => wiringOK (integrators sigs) t
-                        | none => false) = true := by
-  rw [List.all_eq_true]
-  intro m hm
-  have h := List.all_eq_true.mp table_wiring_boundary m hm
-  cases hs : symbolicRun table sigs m.name (m.paramNames.map .param) with
-  | none => rw [hs] at h; cases h
-  | some t => rw [hs] at h; simp only [Bool.and_eq_true] at h; exact h.1.1
+                        | none => false) = true := by decide +kernel
+/-- branch boundaries, and which models branch (round 5): one pass -/
+theorem table_boundary_branch :
+    table.all (fun m => match symbolicRun table sigs m.name (m.paramNames.map .param) with
+                        | some t => boundaryTr (integrators sigs) t && (branchCount t == 1 || branchModels.contains m.name)
+                        | none => false) = true := by decide +kernel
 theorem swap_symmetric : Pairs.symmetric.all (fun p => swapOK table sigs swapRules12 p.name p.args) = true := by
   decide +kernel
 end C15Facts
@@ -501,15 +495,15 @@ namespace C15Facts
 theorem table_boundary : table.all (modelBoundaryOK table sigs) = true := by
   rw [List.all_eq_true]
   intro m hm
-  have h := List.all_eq_true.mp table_wiring_boundary m hm
+  have h := List.all_eq_true.mp table_boundary_branch m hm
   unfold modelBoundaryOK
   cases hs : symbolicRun table sigs m.name (m.paramNames.map .param) with
   | none => rw [hs] at h; cases h
-  | some t => rw [hs] at h; simp only [Bool.and_eq_true] at h; exact h.1.2
+  | some t => rw [hs] at h; simp only [Bool.and_eq_true] at h; exact h.1
 /-- a model outside `branchModels` has a straight-line trace -/
 theorem table_straight (m : Model) (hm : m ∈ table) (hb : branchModels.contains m.name = false) :
     ∃ t, symbolicRun table sigs m.name (m.paramNames.map .param) = some t ∧ branchCount t = 1 := by
-  have h := List.all_eq_true.mp table_wiring_boundary m hm
+  have h := List.all_eq_true.mp table_boundary_branch m hm
   cases hs : symbolicRun table sigs m.name (m.paramNames.map .param) with
   | none => rw [hs] at h; cases h
   | some t =>
